@@ -139,8 +139,18 @@ impl<P: RuntimeProvider + Send + Sync> SqliteZoneHandler<P> {
             rooted(&config.journal_path, root_dir)
         };
 
+        // A journal without a single row was left behind by a first start that stopped before the
+        // initial dump of the zone file was committed: there is nothing to recover from it.
+        let journal_initialized = journal_path.exists()
+            && !(zone_path.exists()
+                && Journal::from_file(&journal_path)
+                    .map_err(|e| format!("error opening journal: {journal_path:?}: {e}"))?
+                    .iter()
+                    .next()
+                    .is_none());
+
         #[cfg_attr(not(feature = "__dnssec"), allow(unused_mut))]
-        let mut handler = if journal_path.exists() {
+        let mut handler = if journal_initialized {
             // load the zone
             info!("recovering zone from journal: {journal_path:?}",);
             let journal = Journal::from_file(&journal_path)
